@@ -6514,3 +6514,16 @@ mod test_map {
         );
     }
 }
+
+#[cfg(feature = "verif-hooks")]
+impl<K, V, S, A: Allocator> HashMap<K, V, S, A> {
+    /// Verification hook: read-only dump of the underlying raw table.
+    pub fn verif_dump(&self) -> crate::raw::verif::TableDump {
+        self.table.verif_dump()
+    }
+
+    /// Verification hook: the pair stored in bucket `index`, if that bucket is full.
+    pub fn verif_bucket(&self, index: usize) -> Option<&(K, V)> {
+        self.table.verif_bucket(index)
+    }
+}
